@@ -134,6 +134,7 @@ Info = ObjT("ModificationInfo")
 
 @contract("modifiers.py", "PolyATrimmer.__call__", props=["C14"])
 def polya_trimmer_call(c):
+    c.runtime = {"module": "c14", "name": "PolyATrimmer"}
     c.types(self=PolyA, record=Record, info=Info)
     c.modifies = ["self.trimmed_bases"]
     c.spec(polya_spec)
